@@ -809,6 +809,7 @@ def show(term, depth=0):
 class Program:
     def __init__(self, recs, include_crates=None):
         self.bodies = {}
+        self.anon_bodies = []
         self.bodies_raw = {}
         self.adts = {}
         self.impls = []
@@ -819,6 +820,8 @@ class Program:
             if include_crates and r.get("crate") not in include_crates:
                 continue
             if k == "body":
+                if "::_::" in r["def"]:
+                    self.anon_bodies.append(r)      # derive-generated impls in anonymous consts share def paths: keep them all
                 b = Body(r)
                 b.prog = self
                 # bins and lib may both define `main`-like paths; key by (crate-prefixed) def path
